@@ -116,6 +116,21 @@ def circuit_sources(tier, seed, ctx, salt, take_quick, take_thorough, nrand_quic
         r = random.Random(seed * 101 + n)
         outs = gen.pick_outputs(r, ni, len(gs), kind=['last', 'some', 'dup', 'withinput', 'many', 'none'][n % 6])
         out.append({'net': [ni, gs], 'outs': outs, 'variant': ['plain', 'shuffle', 'relabel'][n % 3], 'vs': n + seed})
+    # targeted families (TLC-enumerated): unary chains/trees up to depth 6 (7) for the unary-merging pass,
+    # and n-ary symmetric siblings with repeated operands for the duplicate-merging pass
+    fam = [(1, 6 if tier == 'quick' else 7, ['NOT'], 2), (1, 4, ['NOT', 'IFF', 'LNOT', 'RIFF'], 2), (2, 2, ['XOR', 'NXOR', 'AND', 'OR'], 3)]
+    for fi, (ni_, ng_, types_, amax_) in enumerate(fam):
+        fnets, fst = gen.universe(ni_, ng_, types_, amax_, tag=f'P{salt}-F{fi}')
+        ctx['gen_states'] += fst['distinct']
+        ctx['gen_transitions'] += fst['generated']
+        rng.shuffle(fnets)
+        ftake = 1500 if tier == 'quick' else len(fnets)
+        for n, net in enumerate(fnets[:ftake]):
+            ni, gs = net
+            r = random.Random(seed * 211 + n + fi)
+            outs = gen.pick_outputs(r, ni, len(gs), kind=['last', 'many', 'some', 'dup'][n % 4])
+            out.append({'net': [ni, gs], 'outs': outs, 'variant': 'plain', 'vs': n + seed, 'family': f'F{fi}'})
+        note.append(f'family U({ni_},{ng_},{types_},{amax_})={len(fnets)} ({min(ftake, len(fnets))} replayed)')
     nrand = nrand_quick if tier == 'quick' else nrand_thorough
     for j in range(nrand):
         net = gen.random_netlist(rng, ni=rng.randint(1, 5), ng=rng.randint(1, 24), locality=0.5)
